@@ -73,7 +73,7 @@ def eff_dom(dom, cond):
     if cond is None:
         return dom
     k = z3.Const('__k', K)
-    return z3.Lambda([k], z3.And(z3.Select(dom, k), tobool(cond(k))))
+    return z3.Lambda([k], SymIter(dom, None, cond).member(k))
 
 
 # ------------------------------------------------------------------------------- merged evaluation
@@ -155,7 +155,18 @@ class SymIter:
 
     def member(self, k):
         m = z3.Select(self.dom0, k)
-        return m if self.cond is None else z3.And(m, tobool(self.cond(k)))
+        if self.cond is None:
+            return m
+        # the filter condition is only meaningful for members of the source: evaluated (merged) under that assumption
+        kt = ctx().ghost.setdefault('keyterms', [])
+        n = len(kt)
+        try:
+            cnd = tobool(merged_eval(lambda: self.cond(k), [m]))
+        except Abort:
+            cnd = z3.BoolVal(False)
+        finally:
+            del kt[n:]
+        return z3.And(m, cnd)
 
     def gelem(self, k):
         """element at the GENERIC (bound) key k as one merged term; universals are instantiated at k inside"""
@@ -863,8 +874,11 @@ def new_dict(pairs):
         for k, v in pairs:
             m[k] = v
         return m
-    if not pairs and ctx() is not None and ctx().mode == 'sym':
-        return LazyDict()
+    if ctx() is not None and ctx().mode == 'sym' and all(isinstance(k, str) for k, _ in pairs):
+        d = LazyDict()
+        for k, v in pairs:
+            dict.__setitem__(d, k, v)
+        return d
     return builtins.dict(pairs)
 
 
